@@ -277,7 +277,8 @@ Lemma matching_loop_spec d sp ep pairs :
        nth_error (dtext d) (Z.to_nat (dcur d + v)) = Some b /\
        balanced_span a b (firstn (Z.to_nat (v - 1)) (skipn (Z.to_nat (dcur d + 1)) (dtext d)))) \/
       (v < 0 /\ opt_is (current_char d) b = true /\
-       nth_error (dtext d) (Z.to_nat (dcur d + v)) = Some a))).
+       nth_error (dtext d) (Z.to_nat (dcur d + v)) = Some a /\
+       balanced_span b a (firstn (Z.to_nat (- v - 1)) (rev (firstn (Z.to_nat (dcur d)) (dtext d))))))).
 Proof.
   intros Hv. cbv zeta. induction pairs as [|[a b] rest IH]; cbn [matching_bracket_loop].
   - destruct Hv as [Hv0 Hv1]. split; [lia|]. intros Hz; lia.
@@ -289,9 +290,10 @@ Proof.
       * destruct Hv as [Hv0 Hv1]. split; [lia|]. intros Hz; lia.
     + destruct (opt_is (current_char d) b) eqn:Eb.
       * destruct (find_enclosing_bracket_left d a b sp) as [v|] eqn:E.
-        -- destruct (enclosing_left_spec d a b sp v Hv E) as (H0 & H1 & H2 & H3 & _ & _).
+        -- destruct (enclosing_left_spec d a b sp v Hv E) as (H0 & H1 & H2 & H3 & _ & H5).
            destruct Hv as [Hv0 Hv1]. split; [lia|]. intros Hne. exists a, b. split; [now left|]. right.
-           repeat split; try assumption; lia.
+           assert (Hneg : v < 0) by lia. destruct (H5 Hneg) as [_ Hb].
+           split; [exact Hneg|]. split; [exact Eb|]. split; [exact H3|exact Hb].
         -- destruct Hv as [Hv0 Hv1]. split; [lia|]. intros Hz; lia.
       * destruct IH as [IH1 IH2]. split; [exact IH1|]. intros Hne.
         destruct (IH2 Hne) as (a' & b' & Hin & Hcase). exists a', b'. split; [now right|exact Hcase].
